@@ -380,6 +380,13 @@ fn case(i: u64, seed: u64, out: &mut CaseOut) {
                     }
                 }
                 trail.push(format!("TaskData::update({p})"));
+                if rng.chance(1, 6) {
+                    // an importer's idempotent "make sure it exists": a Create recorded for a task
+                    // that exists changes nothing (the returned empty object is not the one held)
+                    let _ = taskchampion::TaskData::create(td.get_uuid(), &mut ops);
+                    trail.push("TaskData::create(existing)".to_string());
+                    out.count("creates_recorded_for_existing_tasks", 1);
+                }
                 if data_map(&td) != expect {
                     out.violate("taskdata/getter-mismatch", format!("TaskData differs from the model after update({p}); trail {trail:?}"), replay.clone());
                     return;
@@ -461,6 +468,8 @@ fn case(i: u64, seed: u64, out: &mut CaseOut) {
                     }
                     out.count("old_values_checked", 1);
                 }
+                // the harness' own idempotent TaskData::create for the (existing) task of this session
+                Operation::Create { uuid } if low_level && *uuid == u => {}
                 other => {
                     out.violate("ops/unexpected-kind", format!("mutators recorded {other:?}"), replay.clone());
                     return;
